@@ -375,6 +375,30 @@ def run(P, R):
         fmu2.has(f2[0], 'self.rules.status_tree', False)
     R.check(r6, ok, 'the formula, when present, replaces the required-based status', 'status|choice', upd.loc(),
             'update() does not choose between formula and required-based status on rules.status_tree')
+    # order inside ApplicationStatus.update: the application state is refreshed and the failures are reset BEFORE the
+    # operational status is evaluated (update_status_required reads self.state to confirm a possible major failure)
+    up = P.unit('ApplicationStatus.update')
+    pos = {}
+    for n in own_nodes(up.node):
+        if isinstance(n, ast.Assign) and any(ast.unparse(t) == 'self.state' for t in n.targets):
+            pos.setdefault('state', (n.lineno, n.col_offset))
+        elif isinstance(n, ast.Assign) and 'self.major_failure' in ast.unparse(n.targets[0]):
+            pos.setdefault('reset', (n.lineno, n.col_offset))
+        elif isinstance(n, ast.Call) and call_text(n) in ('self.update_status_formula', 'self.update_status_required'):
+            pos['eval'] = min(pos.get('eval', (10 ** 9, 0)), (n.lineno, n.col_offset))
+    ok = {'state', 'reset', 'eval'} <= set(pos) and pos['state'] < pos['eval'] and pos['reset'] < pos['eval']
+    R.check(r6, ok, 'the state is refreshed and the failures reset before the status is evaluated', 'status|order',
+            up.loc(), 'ApplicationStatus.update evaluates the operational status before refreshing self.state / resetting '
+            'the failures (%s): the required-STOPPED major failure is decided on the previous application state' % pos)
+    # a string leaf of the formula is first looked up as the exact name of a process; patterns only apply otherwise
+    ev_ = P.unit('ApplicationStatus.evaluate')
+    fme = factmap(ev_)
+    gm = [c for c in own_nodes(ev_.node) if isinstance(c, ast.Call) and call_text(c) == 'self._get_matches']
+    ok = len(gm) == 1 and any(not pol and t.endswith(' in self.processes') for t, pol in fme.closed(gm[0]))
+    R.check(r3, ok, 'an exact process name is resolved before any pattern matching', 'leaf|exact-first', ev_.loc(),
+            'ApplicationStatus.evaluate resolves a string leaf with _get_matches() without first testing `leaf in '
+            'self.processes`: a process name that is not a self-matching regular expression (c++_server) gives a false '
+            'failure')
     R.assume('Agreement on every state vector beyond the decision structure of R5/R6 is NOT decided.')
     R.assume('ASDL signatures are those of the interpreter running the check (%s node classes); deprecated '
              'never-produced classes are outside the universe.' % len(FIELDS))
